@@ -21,6 +21,11 @@ var _ Pass = (*EnumMemberIdentifiers)(nil)
 type EnumMemberIdentifiers struct {
 	Language   string
 	Identifier func(member ast.EnumValue) string
+
+	// EnumIdentifier gives the identifier of the enum itself, in the languages
+	// where it is declared next to its members (Go: a type and its constants):
+	// a member can't be named like its enum.
+	EnumIdentifier func(object ast.Object) string
 }
 
 func (pass *EnumMemberIdentifiers) Process(schemas []*ast.Schema) ([]*ast.Schema, error) {
@@ -47,8 +52,17 @@ func (pass *EnumMemberIdentifiers) checkEnum(object ast.Object) error {
 	// identifier → the member it was given to
 	identifiers := make(map[string]ast.EnumValue)
 
+	enumIdentifier := ""
+	if pass.EnumIdentifier != nil {
+		enumIdentifier = pass.EnumIdentifier(object)
+	}
+
 	for _, member := range object.Type.AsEnum().Values {
 		identifier := pass.Identifier(member)
+
+		if identifier == enumIdentifier {
+			return fmt.Errorf("%s.%s: the enum member '%s' (%v) is named '%s' in %s, like the enum itself: give it a name", object.SelfRef.ReferredPkg, object.Name, member.Name, member.Value, identifier, pass.Language)
+		}
 
 		if !isIdentifier(identifier) {
 			return fmt.Errorf("%s.%s: the enum member '%s' (%v) can not be named in %s ('%s' is not an identifier): give it a name", object.SelfRef.ReferredPkg, object.Name, member.Name, member.Value, pass.Language, identifier)
